@@ -136,7 +136,7 @@ class ScrapesIO(HasIOPreview, ABC):
                 # So don't let them choose bad channel names
                 raise ValueError(
                     f"Trying to build input preview for {cls.__name__}, encountered an "
-                    f"argument name that conflicts with __init__: {label}. Please "
+                    f"argument name that conflicts with a keyword of __init__ or run: {label}. Please "
                     f"choose a name _not_ among {cls._get_init_keywords()}"
                 )
             elif value.kind in (
@@ -236,7 +236,18 @@ class ScrapesIO(HasIOPreview, ABC):
     @classmethod
     @lru_cache(maxsize=1)
     def _get_init_keywords(cls):
-        return list(inspect.signature(cls.__init__).parameters.keys())
+        # Keywords given at instantiation reach `__init__`, keywords given when calling
+        # the node reach `run` (via `__call__`, `pull`, `execute`, ...) -- an input with
+        # one of these names could not be set by keyword
+        run_method = getattr(cls, "run", None)
+        run_keywords = (
+            [] if run_method is None else inspect.signature(run_method).parameters.keys()
+        )
+        return list(
+            dict.fromkeys(
+                [*inspect.signature(cls.__init__).parameters.keys(), *run_keywords]
+            )
+        )
 
     @classmethod
     @lru_cache(maxsize=1)
